@@ -463,7 +463,7 @@ def main(chk):
         r.json = None
     # vacuity: the features of the property's list all occur
     feat = dict(
-        columns=len(cases), rowid_alias=sum(1 for c in cases if c["rowid"]), composite_pk=sum(1 for c in cases if len(c["d"]["pk"]) > 1),
+        definitions=len(cases), rowid_alias=sum(1 for c in cases if c["rowid"]), composite_pk=sum(1 for c in cases if len(c["d"]["pk"]) > 1),
         pk_nullable=sum(1 for c in cases if any(x["nullable"] and x["name"] in c["d"]["pk"] for x in c["d"]["cols"])),
         named_pk=sum(1 for c in cases if c["d"]["pkname"]),
         server_default=sum(1 for c in cases if any(x["default"]["k"] != "none" for x in c["d"]["cols"])),
